@@ -1,6 +1,39 @@
 //@unit props=C10,C13 tier=quick rlimit=40
 //@file src/algo/johnson_75.rs
-// SKELETON
+// C10 for Johnson75 (src/algo/johnson_75.rs: `new`, `is_blocked`, the recursive `unblock` and `circuit`, `circuits`) and the
+// memory-safety part of C13 (the three raw-pointer accesses `b_ptr.add(id)` into `self.b`), verified against the opaque
+// digraph `Dgj` (prelude/dg_johnson.rs: arbitrary finite vertex set, `contiguous()` = 0..order, trait contracts of Order /
+// Vertices / OutNeighbors / FilterVertices). `circuits` calls Tarjan: Tarjan's three functions are re-extracted here with the
+// contracts of units/tarjan.rs (props=C09; its spec functions and lemmas are copied verbatim, Dga := Dgj).
+//
+// `circuits` has one ensures clause per stage:
+//   stage 1 (safety, termination): every `self.b[..]` index is in bounds (b.len() == a.ord(), every blocked id and every
+//            vertex of a sub-digraph is < a.ord() because `a` is contiguous and filter_vertices only removes vertices);
+//            `unblock` terminates (measure |blocked|, its pop loop: |B(u)|), `circuit` terminates (measure |V(scc)| - |stack|:
+//            the stack is duplicate-free).
+//   stage 2 (soundness): every returned sequence is an elementary circuit of `a` written from its smallest vertex.
+//   stage 3 (no duplicates): no sequence is returned twice.
+//   stage 4 (completeness): every elementary circuit of `a` (written from its smallest vertex) is returned.
+// Proof (speclib/johnson_lemmas.rs, all lemmas proved). State of one `circuit(start, start, &component, ..)` run: JS = (blocked,
+// B-lists, stack) relative to the component (has / ink).
+//   jinv  = the stack is a simple path from s of BLOCKED vertices; B-lists of unblocked vertices are empty; B-list entries are
+//           predecessors; a blocked vertex off the stack has only blocked successors and sits on the B-list of each of them;
+//           + a ghost labelling d (existentially quantified): for a blocked vertex u off the stack, d(u) <= |stack| bounds the
+//           stack positions that u reaches through blocked vertices off the stack, and a stale B-list entry that is on the
+//           stack lies at a position >= d.  This is what shows that the cascade of `unblock(top)` never unblocks a vertex that
+//           is still on the stack (lemma_top_closed): hence no vertex is entered twice, the stack stays duplicate-free.
+//   ub_rel = contract of `unblock`: only blocked vertices are unblocked, exactly their B-lists are emptied, an unblocked
+//           vertex unblocks its whole (old) B-list, and the unblocked set lies inside every set closed under blocked B-list
+//           entries that contains u.
+//   jblk  = Johnson's blocking property: every path from a blocked vertex off the stack to s passes through a stack entry
+//           other than s (kept by push / pop after failure / pop after `unblock`: lemma_hpush, lemma_hfail, lemma_hsucc).
+//   seg_ok / comp_ok = what one `circuit(v, ..)` call appends: pairwise different circuits through s that extend stack + [v]
+//           (stages 2, 3), and all of them (stage 4: a circuit continuing with a blocked vertex contradicts jblk).
+//   `circuits`: the component chosen by `min_by_key(|scc| scc.iter().min())` is the strongly connected component of s in
+//           a[{u >= s}] (lemma_min_scc, so start == s); an elementary circuit with smallest vertex s lies inside it
+//           (lemma_circ_in_comp, from Tarjan's completeness clause); rounds for different s emit different first vertices.
+// Assumptions: prelude/dg_johnson.rs (trait contracts), prelude/tarjan_std.rs (see units/tarjan.rs), prelude/johnson_std.rs
+//   (BTreeSet::pop_first, `btree_set::Iter::min`, E12 wrapper vx_min_by_key). No @manual replacement.
 #![feature(allocator_api)]
 use vstd::prelude::*;
 use vstd::std_specs::iter::IteratorSpec;
@@ -481,6 +514,17 @@ spec fn elem_circuit(a: &Dgj, c: Seq<usize>) -> bool {
     &&& forall|i: int| 0 <= i < c.len() - 1 ==> #[trigger] arc_at(a, c, i)
     &&& a.has(c.last() as int, c[0] as int)
     &&& forall|i: int| 0 <= i < c.len() ==> c[0] <= #[trigger] c[i]
+}
+
+/// ... which is a closed walk in the sense of speclib/graph.rs: c[0], ..., c[last], c[0] is a walk of c.len() arcs
+proof fn lemma_elem_circuit_closed_walk(a: &Dgj, c: Seq<usize>)
+    requires elem_circuit(a, c),
+    ensures is_walk(arcs_of(a), a_seq(c).push(c[0] as int)), a_seq(c).push(c[0] as int).len() == c.len() + 1,
+{
+    let w = a_seq(c).push(c[0] as int);
+    assert forall|i: int| 0 <= i < w.len() - 1 implies #[trigger] step_ok(arcs_of(a), w, i) by {
+        if i < c.len() - 1 { assert(arc_at(a, c, i)); }
+    }
 }
 
 /// g is the sub-digraph of `a` induced by the vertices that satisfy `keep`
@@ -1082,7 +1126,6 @@ impl<'a> Johnson75<'a> {
         let ghost idx = it1.index() as int;
         let ghost vs = it1.seq();
         let ghost r0 = rv(result@);
-        let ghost mut done = false;
         let ghost mut i0g: int = 0;
         proof { assert(vs[idx] == s); }
     @after `let subgraph = self.a.filter_vertices`
@@ -1166,11 +1209,6 @@ impl<'a> Johnson75<'a> {
                 lemma_circ_in_comp(a, &subgraph, &component, comps, i0g, s, c);
             }
             lemma_done_step(a, &component, r0, rv(result@), vs, idx, s);
-            done = true;
-        }
-    @loop_end 1
-        proof {
-            assert(done);
         }
     @fn_end
         proof {
